@@ -5,12 +5,14 @@
 package simcore
 
 import (
+	"context"
 	"encoding/json"
 	"fmt"
 	"hash/fnv"
 	"math/rand"
 	"sort"
 	"strings"
+	"sync"
 	"testing/synctest"
 	"time"
 
@@ -216,6 +218,9 @@ func (r *Run) State(s string) {
 }
 
 func (r *Run) Now() time.Time { return time.Now() }
+
+// Ctx is the context of harness-side operations (never cancelled).
+func (r *Run) Ctx() context.Context { return context.Background() }
 func (r *Run) SimElapsed() time.Duration {
 	return time.Since(r.start)
 }
@@ -241,6 +246,10 @@ type Driver struct {
 	Invariant func()
 	// TraceTasks adds task releases to the semantic trace.
 	TraceTasks bool
+
+	hmu      sync.Mutex
+	hints    []time.Time
+	idleStep time.Duration
 }
 
 func NewDriver(r *Run) *Driver {
@@ -352,6 +361,7 @@ func (d *Driver) Step() bool {
 	for i := range ev {
 		if x < ev[i].Weight {
 			d.R.res.Steps++
+			d.idleStep = 0
 			ev[i].Fire()
 			return true
 		}
@@ -383,6 +393,58 @@ func (d *Driver) Advance(dt time.Duration) {
 	time.Sleep(dt)
 	synctest.Wait()
 }
+
+// Hint tells the driver that something scheduled by the harness (a scripted
+// delay, a configured timeout) is due at t, so that an idle driver can move the
+// clock to exactly that instant.
+func (d *Driver) Hint(t time.Time) {
+	d.hmu.Lock()
+	d.hints = append(d.hints, t)
+	d.hmu.Unlock()
+}
+
+// IdleAdvance is called when nothing is enabled: it moves the clock to the
+// earliest hinted instant in the future or, without one, by a step that doubles
+// from 1ms while the system stays idle. It returns false once the run has
+// consumed more than horizon of simulated time.
+func (d *Driver) IdleAdvance(horizon time.Duration) bool {
+	if d.R.SimElapsed() > horizon {
+		return false
+	}
+	now := time.Now()
+	var next time.Time
+	d.hmu.Lock()
+	keep := d.hints[:0]
+	for _, h := range d.hints {
+		if h.After(now) {
+			keep = append(keep, h)
+			if next.IsZero() || h.Before(next) {
+				next = h
+			}
+		}
+	}
+	d.hints = keep
+	d.hmu.Unlock()
+	var dt time.Duration
+	if !next.IsZero() {
+		dt = next.Sub(now)
+		d.idleStep = 0
+	} else {
+		if d.idleStep == 0 {
+			d.idleStep = time.Millisecond
+		} else if d.idleStep < 10*time.Minute {
+			d.idleStep *= 2
+		}
+		dt = d.idleStep
+	}
+	d.R.Tracef("idle clock +%s", dt)
+	time.Sleep(dt)
+	synctest.Wait()
+	return true
+}
+
+// ResetIdle restarts the doubling of idle steps (call after activity).
+func (d *Driver) ResetIdle() { d.idleStep = 0 }
 
 // ClockSource offers "advance the clock by one of the given steps" as an event.
 func (d *Driver) ClockSource(weight int, steps ...time.Duration) Source {
